@@ -1,5 +1,6 @@
 import GoflowModel.Engine.Migrate
 import GoflowModel.Gen.Migrations
+import GoflowModel.Props.C11
 /-!
 # C16 — Definition migration yields valid, equivalent, stable flows
 
@@ -10,7 +11,9 @@ per-version function preserves (the flow's UUID, its nodes, exits and destinatio
 migration preserves.  About 13.6: limiting a name is idempotent and establishes the limit.
 Regenerated from the source on every run: the migration functions with their versions, and every
 key they write — none of them is a key that carries the flow's identity or connectivity.
-The per-version functions themselves, the legacy migration and the rejection clause are decided on
+The one rewrite of expressions a migration makes (13.3: `@webhook` becomes `@webhook.json`) keeps what
+every expression evaluates to (`rewrite_13_3_preserves_value`, the renaming theorem of C11 at that
+instance).  The other per-version functions, the legacy migration and the rejection clause are decided on
 the implementation (monitors over the repository's stored definitions, generated definitions at
 every source version, and mutated/hostile inputs).
 -/
@@ -222,6 +225,19 @@ theorem limitName_short (max : Nat) (s : List Char) (h : s.length ≤ max) : lim
   unfold limitName; rw [if_neg (by omega)]
 
 /-! ### regenerated from the source on every run -/
+
+/-- **The 13.3 rewrite preserves what expressions evaluate to**: `ContextRefRename("webhook",
+"webhook.json")` applied to any expression — the whole language, anonymous functions that rebind
+the name included — evaluates, in a context where the value has moved from `webhook` to
+`webhook.json`, to what the original evaluated to; for every value domain and scope.  (`fresh`:
+the new name does not already occur; `hm`: a name missing from the context is the same failure
+under either name.) -/
+theorem rewrite_13_3_preserves_value {V : Type} (S : Expr.Sem V)
+    (hm : S.missing (Expr.lowerName "webhook.json".toList) = S.missing (Expr.lowerName "webhook".toList))
+    (e : Expr.Expr) (ρ ρ' : Expr.Env V) (h : C11.Moved "webhook".toList "webhook.json".toList ρ ρ')
+    (hf : Expr.fresh (Expr.lowerName "webhook.json".toList) e) :
+    Expr.eval S ρ' (Expr.rename "webhook".toList "webhook.json".toList e) = Expr.eval S ρ e :=
+  C11.rename_eval S "webhook".toList "webhook.json".toList hm e ρ ρ' h hf
 
 /-- one function per version 13.1 … 13.6, each declaring its own version -/
 theorem migration_functions_pinned :
